@@ -103,7 +103,7 @@ def refusing_calls():
         C.append(("addtsec %s existing title" % sec, [["addtsec", 1, H(sec), H(title)]], sec))
     C.append(("addtsec i (not a section)", [["addtsec", 1, H("i"), H("77")]], "i"))
     C.append(("addtsec nosuch", [["addtsec", 1, H("nosuch"), H("x")]], "nosuch"))
-    for sec, title in (("tm", "zz"), ("tu", "zz"), ("multi", "x"), ("i", "x"), ("nosuch", "x")):
+    for sec, title in (("tm", "zz"), ("tu", "zz"), ("multi", "x"), ("i", "x"), ("nosuch", "x"), ("tm", ""), ("tu", ""), ("tm", "A"), ("tm", "a ")):
         C.append(("rmtsec %s missing title" % sec, [["rmtsec", 1, H(sec), H(title)]], sec))
     for sec, idx in (("tm", 2), ("tm", 99), ("tu", 1), ("multi", 1), ("single", 1), ("i", 0), ("nosuch", 0)):
         C.append(("rmnsec %s %d (no such instance)" % (sec, idx), [["rmnsec", 1, H(sec), idx]], sec))
